@@ -82,6 +82,14 @@ func (g *gen) pos(n ast.Node) token.Position {
 	return p
 }
 
+// chanName: channels stored in wallet fields are named w.<path> whatever the receiver is called
+func (c *ctx) chanName(e ast.Expr) string {
+	if p, ok := c.recvPath(e); ok && len(p) > 0 {
+		return "w." + strings.Join(p, ".")
+	}
+	return c.g.render(e)
+}
+
 // recvPath: if e is a selector chain rooted at the receiver (w.a.b.c) return [a b c]
 func (c *ctx) recvPath(e ast.Expr) ([]string, bool) {
 	switch x := e.(type) {
@@ -152,7 +160,7 @@ func (c *ctx) expr(e ast.Expr) []instr {
 	case *ast.UnaryExpr:
 		if x.Op == token.ARROW {
 			out := c.expr(x.X)
-			return append(out, instr{op: "Chan", chop: "ChRecv", arg: g.render(x.X)})
+			return append(out, instr{op: "Chan", chop: "ChRecv", arg: c.chanName(x.X)})
 		}
 		if x.Op == token.AND {
 			if p, ok := c.recvPath(x.X); ok && len(p) > 0 {
@@ -313,7 +321,7 @@ func (c *ctx) call(x *ast.CallExpr, mode string) []instr {
 		}
 		if f.Name == "close" && len(x.Args) == 1 {
 			out = append(out, c.expr(x.Args[0])...)
-			return append(out, instr{op: "Chan", chop: "ChClose", arg: g.render(x.Args[0])})
+			return append(out, instr{op: "Chan", chop: "ChClose", arg: c.chanName(x.Args[0])})
 		}
 		if (f.Name == "delete" || f.Name == "copy" || f.Name == "clear") && len(x.Args) >= 1 {
 			if p, ok := c.recvPath(x.Args[0]); ok && len(p) > 0 {
@@ -644,7 +652,7 @@ func (c *ctx) stmt(s ast.Stmt) []instr {
 		return append(c.expr(x.X), c.lhs(x.X)...)
 	case *ast.SendStmt:
 		out := append(c.expr(x.Chan), c.expr(x.Value)...)
-		return append(out, instr{op: "Chan", chop: "ChSend", arg: g.render(x.Chan)})
+		return append(out, instr{op: "Chan", chop: "ChSend", arg: c.chanName(x.Chan)})
 	case *ast.GoStmt:
 		return c.call(x.Call, "go")
 	case *ast.DeferStmt:
